@@ -208,3 +208,21 @@ def field_offsets (fmt):
       if code != 'x': out.append((pos, one))
       pos += one
   return out
+
+
+def advance_tied (L, g, node, new):
+  """does a fact that holds at `node` say new == cursor + wire length (in any arrangement)?"""
+  from . import q as _q
+  for l, o, r, b in _q.guard_facts(g, node):
+    if r is None or o != '==': continue
+    a = _q.lin_terms(l); c = _q.lin_terms(r)
+    if a is None or c is None: continue
+    d = dict(a[0])
+    for k_, v_ in c[0].items():
+      d[k_] = d.get(k_, 0) - v_
+      if d[k_] == 0: del d[k_]
+    if a[1] - c[1] != 0: continue
+    for sgn in (1, -1):
+      dd = dict((k_, sgn * v_) for k_, v_ in d.items())
+      if dd == {new: 1, L.cur: -1, L.wlen: -1}: return True
+  return False
